@@ -200,6 +200,10 @@ func genC04(g *prng.R) c04Case {
 		if len(followed) == 1 {
 			fobj = followed[0]
 		}
+		if g.Chance(1, 6) {
+			// the Follow lists one followed actor twice: two entries, one actor
+			fobj = append(asList(fobj), followed[0])
+		}
 		if g.Chance(1, 8) {
 			// the Follow also names somebody without an id (it was answered
 			// all the same): that value is nobody an Accept could come from
